@@ -9,6 +9,10 @@ CLAIMED = {
    text="Seeded operation sequences on the real WAL (segment sizes 128B..4KiB so that rollovers/truncations land on, before and after segment boundaries) are compared with a list model after every step; trimming is checked with a mocked clock through a verif shim; concurrent readers run under the race detector. Sampled, not exhaustive: it says the WAL matched the model on the sequences listed in the evidence.",
    note="Trusts the list model written from the property text; power-loss durability is C10's side; time-based trimming is observed via the hook wal.trim.tick.",
    technique="reference-model monitor over seeded op sequences + invariant hook + race detector"),
+ "C10": dict(engine="walmodel", level="fault_enumeration",
+   text="For each generated WAL (v2 written by the real code, v1 segments written with the v1 codec) every subset of differing 4KiB pages of the unsynced tail (<=8 pages; sampled above) is persisted and reopened, and a fixed table of header-field values plus zero/random/bit-flip damage is applied to selected committed and uncommitted records and index files; each reopened copy is read back entry by entry and compared bit-for-bit with what was appended. Panics are caught per reopen, runaway recovery by a watchdog with heap-growth evidence.",
+   note="Page granularity 4KiB is assumed; the commit-offset provider is truthful (component level); file truncation is not generated (the property lists torn writes, zeroed and random bytes).",
+   technique="fault injection (page-subset crash images, header/payload/index corruption) + bit-exact read-back oracle"),
 }
 
 NOT_APPLICABLE = {}
